@@ -151,6 +151,17 @@ func runC03(c *Ctx) error {
 		}
 		cases = append(cases, chainCase{name: "bits extremes on genesis", ops: historyOps(ex, ord, nil, true)})
 	}
+	if c.Replay == "" {
+		lens := []int{1103}
+		if c.Thorough {
+			lens = []int{500, 501, 1000, 1703, 2501}
+		}
+		for _, n := range lens {
+			if err := c03ImportedStore(c, rng, n); err != nil {
+				return err
+			}
+		}
+	}
 	for ci2, cs := range cases {
 		o := &c03Oracle{snap: map[string]string{}}
 		var before []DbRow
